@@ -1,4 +1,40 @@
 package packet
 
+import (
+	"github.com/teleport-network/teleport/x/xibc/core/host"
+	"github.com/teleport-network/teleport/x/xibc/core/packet/keeper"
+	"github.com/teleport-network/teleport/x/xibc/core/packet/types"
+	rt "github.com/teleport-network/teleport/zzverifrt"
+)
+
 // VerifC15PacketGenesisImport (shared with the C13 check): InitGenesis of the packet sub-module does not panic on a validated genesis.
 func VerifC15PacketGenesisImport() { c13PacketGenesis() }
+
+// VerifC15ValidatedPacketGenesisImport: ANY packet genesis state its Validate accepts - zero or one entry of each family, all
+// names, sequences and data bytes arbitrary - is imported without a panic (a genesis file is written by hand or by a tool).
+func VerifC15ValidatedPacketGenesisImport() {
+	rt.Abstract("github.com/cosmos/cosmos-sdk/x/auth/types.NewEmptyModuleAccount")
+	k := keeper.NewKeeper(rt.Codec(), rt.StoreKey(host.StoreKey), nil, gAccounts{}, nil)
+	state := func(tag string) types.PacketState {
+		return types.PacketState{SrcChain: rt.Str(tag + ".src"), DstChain: rt.Str(tag + ".dst"), Sequence: rt.U64(tag + ".seq"), Data: rt.Bytes(tag + ".data")}
+	}
+	var gs types.GenesisState
+	if rt.Bool("hasAck") {
+		gs.Acknowledgements = append(gs.Acknowledgements, state("ack"))
+	}
+	if rt.Bool("hasCommitment") {
+		gs.Commitments = append(gs.Commitments, state("commitment"))
+	}
+	if rt.Bool("hasReceipt") {
+		gs.Receipts = append(gs.Receipts, state("receipt"))
+	}
+	if rt.Bool("hasSendSequence") {
+		gs.SendSequences = append(gs.SendSequences, types.PacketSequence{SrcChain: rt.Str("seq.src"), DstChain: rt.Str("seq.dst"), Sequence: rt.U64("seq.seq")})
+	}
+	rt.Assume(gs.Validate() == nil)
+	if len(gs.Acknowledgements)+len(gs.Commitments)+len(gs.Receipts)+len(gs.SendSequences) == 4 {
+		rt.Reach("one-entry-of-each-family")
+	}
+	dst := rt.EmptyCtx()
+	rt.NoPanic("P9-validated-packet-genesis-is-imported-without-panic", func() { InitGenesis(dst, k, gs) })
+}
